@@ -13,7 +13,32 @@ CHECK_DEADLOCK FALSE
 
 
 def validate(ctx, module, traces, name, canaries=(), workers=16, timeout=1200, consts="", env=None,
-             where=lambda tr, m: None, count=True, xmx="12g", extra_cfg=""):
+             where=lambda tr, m: None, count=True, xmx="12g", extra_cfg="", max_bytes=24_000_000):
+    """Splits large batches into several TLC invocations (JSON ingestion is the bottleneck), see _validate."""
+    import json as _json
+    if not traces:
+        return {}
+    sizes = [len(_json.dumps(t, separators=(",", ":"))) for t in traces]
+    batches, cur, cur_sz = [], [], 0
+    for t, sz in zip(traces, sizes):
+        if cur and cur_sz + sz > max_bytes:
+            batches.append(cur)
+            cur, cur_sz = [], 0
+        cur.append(t)
+        cur_sz += sz
+    if cur:
+        batches.append(cur)
+    out = {}
+    can = set(canaries)
+    for k, b in enumerate(batches):
+        ids = {t["id"] for t in b}
+        out.update(_validate(ctx, module, b, name if len(batches) == 1 else "%s.%d" % (name, k), [c for c in can if c in ids], workers, timeout,
+                             consts, env, where, count, xmx, extra_cfg))
+    return out
+
+
+def _validate(ctx, module, traces, name, canaries=(), workers=16, timeout=1200, consts="", env=None,
+              where=lambda tr, m: None, count=True, xmx="12g", extra_cfg=""):
     """traces: list of dicts with unique 'id'.  canaries: ids that MUST be rejected.
     Returns {id: {"verdict": "ACCEPT"/"REJECT", "mismatches": [...]}}.  Non-canary rejections are
     turned into ctx.violation(clause, where, detail)."""
